@@ -209,7 +209,8 @@ check("C14",
       "manifold, counts, arity, components / Euler characteristic / border loops of the named shape, class and cell for the volume switch, "
       "colour attribute, requested corners (exact), unit square, and one exact rational measure per vertex for the named surface (squared "
       "distance to centre / axis / torus circle).",
-      "Not decided: the apex angle defect of ring() (bisection on atan2). icosahedron-like shapes only equidistant from the centre. "
+      "The angle defect realised at the centre of ring() / flat_ring() is measured by the driver in floating point and must be within 2 micro-radians of the "
+      "(clamped) request (the bisection stops at 1e-6); requests 0 .. 7 including the clamp window. icosahedron-like shapes only equidistant from the centre. "
       "cylindrify_edges on unit-length polylines; unit_triangle with equal resolutions; face lists of volume outputs are not judged as surfaces.",
       "TLA+ promise table + reference index arithmetic (C14_Procedural, C14_MC) checked with TLC; TLC trace validation of every generator output with MeshCore (C14_Trace)",
       "DESIGN.md 6.14")
